@@ -59,11 +59,39 @@ fn fmt_prios(v: &[u64]) -> String {
 /// Every measurement runs in a FRESH child process, so that a process-wide generator (if the code
 /// under test has one) starts from its initial state each time, exactly like a thread-local one.
 fn child(args: &[String]) -> String {
-    let out = std::process::Command::new(std::env::current_exe().unwrap()).args(args).output().unwrap();
-    if !out.status.success() {
+    // A measurement that does not finish (a thread stuck in a broken lock, a livelock) must not hang the check:
+    // the child is killed after CHILD_TIMEOUT_S seconds and the caller's line panics (observation `P`), which
+    // neither the model nor the specification accepts.
+    const CHILD_TIMEOUT_S: u64 = 120;
+    use std::io::Read;
+    let mut ch = std::process::Command::new(std::env::current_exe().unwrap())
+        .args(args)
+        .stdout(std::process::Stdio::piped())
+        .spawn()
+        .unwrap();
+    let mut pipe = ch.stdout.take().unwrap();
+    let reader = std::thread::spawn(move || {
+        let mut s = String::new();
+        let _ = pipe.read_to_string(&mut s);
+        s
+    });
+    let t0 = std::time::Instant::now();
+    let status = loop {
+        match ch.try_wait().unwrap() {
+            Some(st) => break st,
+            None if t0.elapsed().as_secs() >= CHILD_TIMEOUT_S => {
+                let _ = ch.kill();
+                let _ = ch.wait();
+                panic!("child did not finish within {} s (deadlock or livelock)", CHILD_TIMEOUT_S);
+            }
+            None => std::thread::sleep(std::time::Duration::from_millis(5)),
+        }
+    };
+    let out = reader.join().unwrap();
+    if !status.success() {
         panic!("child failed");
     }
-    String::from_utf8(out.stdout).unwrap().trim().to_string()
+    out.trim().to_string()
 }
 
 fn conc(topo: &str, par: Par) -> Vec<Report> {
